@@ -572,10 +572,28 @@ func TestC12_P_FailHealContinue(t *testing.T) {
 		if !bytes.Equal(delivered, fc.Data[:len(delivered)]) {
 			t.Fatalf("C12 [%s] %s buf=%d: bytes delivered before the error are not a prefix of the file", fc.Desc, route, bufSize)
 		}
-		var pos int64
-		must(t, "tell", func() { pos, err = rs.Seek(0, io.SeekCurrent) })
-		if err != nil || pos != int64(len(delivered)) {
-			t.Fatalf("C12 [%s] %s buf=%d: after the failed read the reader reports position %d (err %v) but %d bytes were delivered", fc.Desc, route, bufSize, pos, err, len(delivered))
+		// asking again while the block is still unavailable: the error must be reported again (never bytes beyond the missing
+		// span, never end-of-file)
+		again := rapid.IntRange(0, 2).Draw(t, "readsWhileStillMissing")
+		for i := 0; i < again; i++ {
+			var k int
+			var e error
+			must(t, "read again while the block is missing", func() { k, e = rs.Read(buf) })
+			delivered = append(delivered, buf[:k]...)
+			if int64(len(delivered)) > firstStart || !bytes.Equal(delivered, fc.Data[:len(delivered)]) {
+				t.Fatalf("C12 [%s] %s buf=%d: read #%d after the error delivered %d more bytes (now %d, the missing span starts at %d)", fc.Desc, route, bufSize, i+1, k, len(delivered), firstStart)
+			}
+			if e == nil || e == io.EOF || !isInjected(e) {
+				t.Fatalf("C12 [%s] %s buf=%d: read #%d after the error, block still missing: err=%v after %d bytes", fc.Desc, route, bufSize, i+1, e, len(delivered))
+			}
+		}
+		// (asking for the position rebuilds the reader's internals, so it is only done in some cases)
+		if rapid.Bool().Draw(t, "tell") {
+			var pos int64
+			must(t, "tell", func() { pos, err = rs.Seek(0, io.SeekCurrent) })
+			if err != nil || pos != int64(len(delivered)) {
+				t.Fatalf("C12 [%s] %s buf=%d: after the failed read the reader reports position %d (err %v) but %d bytes were delivered", fc.Desc, route, bufSize, pos, err, len(delivered))
+			}
 		}
 		// heal and continue, tolerating repeated errors for a few retries
 		fc.St.Missing = map[cid.Cid]bool{}
